@@ -401,6 +401,10 @@ func (s *session) execPiece(ctx context.Context, p *piece, args []interface{}) (
 	if rf, ok := ferr.(*rowFault); ok {
 		midResult, ferr = rf, nil
 	}
+	if _, boom := ferr.(*panicFault); boom {
+		err = ferr // (for the journal)
+		panic("memdb: injected panic in " + p.kind)
+	}
 	if d, slow := ferr.(*delayFault); slow {
 		// a slow server: the statement is held up (without the engine lock), then runs
 		e.mu.Unlock()
